@@ -48,45 +48,120 @@ def is_pop_left_loop(fn: FuncInfo, attr):
     return True, ''
 
 
-def check_tokenizer_feed(ctx, rule):
+def _tok_state(tok):
+    from ..absint import AList
+    st = {}
+    for k, v in tok.attrs.items():
+        st[k] = v
+    return st
+
+
+def tokenizer_semantics(ctx, rule):
+    """Tokenizer.feed is a fold of feed_byte, abstractly interpreted: after feeding a symbolic stream in one call, cut in two at
+    every offset, or byte by byte, the tokenizer is in the same state (status, buffer, expected length) with the same tokens
+    queued in the same order; iteration and len() hand the tokens out first-in first-out and leave the queue empty."""
+    from .. import smf
+    from ..absint import AList, AObj
+    from ..fold import ClassRef
+    ai = smf.make_interp(ctx)
     cls = ctx.p.cls(TOK, 'Tokenizer')
-    o, fn = ctx.p.lookup_method(cls, 'feed')
-    if fn is None:
-        raise AnalysisError('Tokenizer.feed not found')
-    ctx.fn(fn)
-    w = ctx.where(fn)
-    b = body_wo_doc(fn.node)
-    ok = False
-    why = 'Tokenizer.feed is not exactly "for byte in data: self.feed_byte(byte)"'
-    params = fn.params()
-    if len(b) == 1 and isinstance(b[0], ast.For) and not b[0].orelse and len(params) >= 2 \
-            and isinstance(b[0].iter, ast.Name) and b[0].iter.id == params[1] and isinstance(b[0].target, ast.Name):
-        lb = b[0].body
-        if len(lb) == 1 and isinstance(lb[0], ast.Expr) and isinstance(lb[0].value, ast.Call):
-            c = lb[0].value
-            callee = astq.resolve_callee(ctx.p, fn, c)
-            o2, fb = ctx.p.lookup_method(cls, 'feed_byte')
-            if isinstance(callee, FuncInfo) and fb is not None and callee.qname == fb.qname and len(c.args) == 1 \
-                    and isinstance(c.args[0], ast.Name) and c.args[0].id == b[0].target.id and not c.keywords:
-                ok = True
+    o, feed = ctx.p.lookup_method(cls, 'feed')
+    o, fb = ctx.p.lookup_method(cls, 'feed_byte')
+    o, it = ctx.p.lookup_method(cls, '__iter__')
+    o, ln = ctx.p.lookup_method(cls, '__len__')
+    if feed is None or fb is None or it is None:
+        raise AnalysisError('Tokenizer.feed/feed_byte/__iter__ not found')
+    for f in (feed, fb, it):
+        ctx.fn(f)
+    w = ctx.where(feed)
+    n1, v1, d0, d1, p1 = (smf.sym(x, 127) for x in ('n1', 'v1', 'd0', 'd1', 'p1'))
+    stream = [0x40, 0x93, n1, v1, 0xf8, 0xf0, d0, 0xfe, d1, 0xf7, 0xf6, 0xc2, p1, 0xb1, n1]     # ends inside a control_change
+
+    def run(chunks, how, kind='list'):
+        holder = {}
+
+        def thunk():
+            t = ai.apply(ClassRef(cls), [], {}, None)
+            holder['t'] = t
+            for ch in chunks:
+                if how == 'bytes':
+                    for b in ch:
+                        ai.call_function(fb, [t, b], {})
+                else:
+                    ai.call_function(feed, [t, AList(list(ch), kind)], {})
+            return t
+        outs = ai.explore(thunk)
+        return outs
+
+    def snapshot(t):
+        out = {}
+        for k, v in t.attrs.items():
+            if isinstance(v, AList):
+                out[k] = [list(x.items) if isinstance(x, AList) else x for x in v.items]
             else:
-                why = f'loop body calls {unparse(c)!r}, not self.feed_byte(<loop variable>)'
-        else:
-            why = 'loop body has statements other than the feed_byte call'
-    elif len(b) > 1:
-        why = 'Tokenizer.feed has statements besides the loop over the data (state touched per call)'
-    ctx.require(ok, rule, 'Tokenizer.feed', w, why, construct=f'{fn.qname}::fold')
+                out[k] = v
+        return out
+
+    def same(a, b):
+        if isinstance(a, dict) and isinstance(b, dict):
+            return set(a) == set(b) and all(same(a[k], b[k]) for k in a)
+        if isinstance(a, list) and isinstance(b, list):
+            return len(a) == len(b) and all(same(x, y) for x, y in zip(a, b))
+        from .. import wire
+        return a is b or wire.value_equal(a, b)
+    ref_outs = run([stream], 'bytes')
+    if len(ref_outs) != 1 or ref_outs[0].kind != 'return':
+        ctx.fail(rule, 'tokenizer-fold[byte by byte]', w, f'feeding byte by byte does not complete on one path: {ref_outs}', construct=f'{fb.qname}::outcomes')
+        return
+    ref = snapshot(ref_outs[0].value)
+    nq = [k for k, v in ref.items() if isinstance(v, list) and v and isinstance(v[0], list)]
+    expected = [[0x93, n1, v1], [0xf8], [0xfe], [0xf0, d0, d1, 0xf7], [0xf6], [0xc2, p1]]
+    ctx.require(len(nq) == 1 and same(ref[nq[0]], expected), rule, 'tokenizer-fold[tokens]', w,
+                f'after the stream the tokenizer holds {ref}; the queue must hold {expected} (in order of completion)',
+                construct=f'{fb.qname}::tokens')
+    variants = [('at once', [stream])] + [(f'cut at {c}', [stream[:c], stream[c:]]) for c in range(1, len(stream))] + \
+        [('three chunks', [stream[:4], stream[4:9], stream[9:]]), ('with empty chunks', [[], stream[:6], [], stream[6:], []])]
+    # the chunk may be any iterable of integers: lists, tuples, bytes and bytearray objects are what callers pass
+    variants = [(lb, ch, 'list') for lb, ch in variants] + \
+        [(f'cut at {c} ({kind})', [stream[:c], stream[c:]], kind) for kind in ('bytes', 'bytearray', 'tuple') for c in (3, 6, 7, 9, 12)]
+    for label, chunks, kind in variants:
+        outs = run(chunks, 'feed', kind)
+        ok = len(outs) == 1 and outs[0].kind == 'return' and same(snapshot(outs[0].value), ref)
+        ctx.require(ok, rule, f'tokenizer-fold[{label}]', w,
+                    f'feed() {label} leaves the tokenizer as {snapshot(outs[0].value) if len(outs) == 1 and outs[0].kind == "return" else outs!r}; '
+                    f'feeding the same bytes one by one leaves it as {ref}', construct=f'{feed.qname}::fold')
+    # retrieval: first-in first-out, queue empty afterwards
+    def thunk_it():
+        t = ai.apply(ClassRef(cls), [], {}, None)
+        ai.call_function(feed, [t, AList(list(stream), 'list')], {})
+        n_before = ai.call_function(ln, [t], {}) if ln is not None else None
+        toks = list(ai.iterate(t, None))
+        n_after = ai.call_function(ln, [t], {}) if ln is not None else None
+        again = list(ai.iterate(t, None))
+        return n_before, toks, n_after, again
+    outs = ai.explore(thunk_it)
+    ok = len(outs) == 1 and outs[0].kind == 'return'
+    why = f'{outs}'
+    if ok:
+        n_before, toks, n_after, again = outs[0].value
+        got = [list(x.items) if isinstance(x, AList) else x for x in toks]
+        ok = same(got, ref[nq[0]]) if nq else False
+        ok = ok and (ln is None or (n_before == 6 and n_after == 0)) and again == []
+        why = f'len() = {n_before!r}, iteration gives {got}, then len() = {n_after!r} and a second iteration gives {again}; expected the 6 queued tokens in order, then nothing'
+    ctx.require(ok, rule, 'tokenizer-iteration', ctx.where(it), why, construct=f'{it.qname}::fifo')
+    for q in ai.inlined:
+        ctx.functions.add(q)
+
+
+def check_tokenizer_feed(ctx, rule):
+    tokenizer_semantics(ctx, rule)
 
 
 def check_tokenizer_iter(ctx, rule):
-    cls = ctx.p.cls(TOK, 'Tokenizer')
-    o, fn = ctx.p.lookup_method(cls, '__iter__')
-    if fn is None:
-        raise AnalysisError('Tokenizer.__iter__ not found')
-    ctx.fn(fn)
-    ok, why = is_pop_left_loop(fn, '_messages')
-    ctx.require(ok, rule, 'Tokenizer.__iter__', ctx.where(fn), f'tokens are not handed out first-in first-out: {why}',
-                construct=f'{fn.qname}::fifo')
+    # decided together with the fold (tokenizer_semantics); kept as an entry point for the rules that name it
+    if not ctx.cache.get(('tokenizer_semantics', rule)):
+        ctx.cache[('tokenizer_semantics', rule)] = True
+        tokenizer_semantics(ctx, rule)
 
 
 def check_decode(ctx, rule):
